@@ -57,7 +57,18 @@ def gen(rng, n):
             nodes += [['d', tgt, 0o700], ['d', os.path.dirname(lay.home_trash), 0o755], ['l', lay.home_trash, tgt]]
             symhome = True
         nohome = rng.random() < 0.05
-        step = {'cmd': 'put', 'argv': argv + ['--', arg], 'now': [2024, 5, 6, 7, 8, 9, 0], 'env': dict(env_extra)}
+        # a first argument on ANOTHER volume (the enclosing one when the file's volume is nested inside it): whatever trash-put learnt
+        # while handling it must not leak into the decision for the next argument; and a pre-existing $topdir/.Trash/$uid
+        pre = None
+        outer = [m for m in vols if m != v and m != '/' and v.startswith(m + '/')]
+        if not td_opt and (outer and rng.random() < 0.6 or rng.random() < 0.12):
+            pv = outer[0] if outer else rng.choice(vols)
+            pre = scen.Layout.j(pv, 'data/pre0')
+            nodes += [['d', scen.Layout.j(pv, 'data'), 0o755], ['f', pre, 'first argument']]
+        if lay.top1_can_hold(v) and rng.random() < 0.3:
+            t1 = lay.top1(v)
+            nodes += [['d', t1, 0o700], ['d', t1 + '/files', 0o700], ['d', t1 + '/info', 0o700]]
+        step = {'cmd': 'put', 'argv': argv + ['--'] + ([pre] if pre else []) + [arg], 'now': [2024, 5, 6, 7, 8, 9, 0], 'env': dict(env_extra)}
         scn = lay.scenario([step], cwd='/', extra=nodes)
         if nohome:
             scn['env'].pop('HOME', None)
@@ -65,7 +76,7 @@ def gen(rng, n):
         scns.append(scn)
         metas.append({'file': parent + '/' + name, 'parent': parent, 'vol': v, 'uid': lay.uid, 'hf': hf, 'td_opt': td_opt, 'nohome': nohome,
                       'symhome': symhome, 'top': lay.top[v], 'home_trash': lay.home_trash, 'mounts': ['/'] + lay.mounts, 'via': via,
-                      'enable': env_extra.get('TRASH_ENABLE_HOME_FALLBACK')})
+                      'enable': env_extra.get('TRASH_ENABLE_HOME_FALLBACK'), 'pre': pre})
     return scns, metas
 
 
@@ -165,6 +176,19 @@ def judge(run, scn, meta, res, section='state'):
     run.count(section)
     want, kind = spec_choice(before, meta, env)
     pairs, strays, orphans = putlib.new_trash_items(before, after)
+    npre = 0
+    if meta.get('pre'):
+        # the first argument is judged by the same table, then set aside
+        wpre, kpre = spec_choice(before, dict(meta, parent=os.path.dirname(meta['pre'])), env)
+        ppre = [(td, n) for td, n in pairs if n.startswith('pre0')]
+        gpre = realdir(after, ppre[0][0]) if len(ppre) == 1 else None
+        if gpre != (realdir(before, wpre) if wpre else None):
+            run.fail('oracle', 'the FIRST argument did not go to the trash directory the spec prescribes',
+                     dict(case, chosen=gpre, prescribed=wpre, prescribed_kind=kpre), key='wrong-trash-dir-first:%s' % kpre, section=section)
+        pairs = [(td, n) for td, n in pairs if not n.startswith('pre0')]
+        npre = 1 if (gpre and kpre != 'home-fallback') else 0
+        if gpre and kpre == 'home-fallback':
+            npre = None
     got = realdir(after, pairs[0][0]) if len(pairs) == 1 else None
     wantp = realdir(before, want) if want else None
     if strays or orphans or len(pairs) > 1:
@@ -183,14 +207,14 @@ def judge(run, scn, meta, res, section='state'):
                     run.fail('oracle', 'a trash directory was created with a mode other than 0700', dict(case, path=p, mode=oct(v[1])),
                              key='not-private', section=section)
         # without the fallback the move is one rename
-        if kind != 'home-fallback':
+        if kind != 'home-fallback' and npre is not None:
             moves = [m for m in o.get('muts', []) if m in ('sendfile', 'copy_file_range', 'symlink')]
-            if moves or o.get('muts', []).count('rename') != 1:
+            if moves or o.get('muts', []).count('rename') != 1 + npre:
                 run.fail('oracle', 'trashing was not a single rename (a cross-device copy happened without the home fallback)',
                          dict(case, mutations=o.get('muts')), key='silent-copy', section=section)
-    if (o['exit'] == 0) != (got is not None):
+    if not meta.get('pre') and (o['exit'] == 0) != (got is not None):
         run.fail('oracle', 'exit status does not match the outcome', case, key='exit-mismatch', section=section)
-    run.nontriv((meta['vol'] == '/', tuple(meta['top']), meta['hf'], meta['enable'], bool(meta['td_opt']), meta['symhome'], bool(meta['via']), kind,
+    run.nontriv((meta['vol'] == '/', tuple(meta['top']), meta['hf'], meta['enable'], bool(meta['td_opt']), meta['symhome'], bool(meta['via']), kind, bool(meta.get('pre')),
                  'XDG_DATA_HOME' in env and env['XDG_DATA_HOME'] == '', meta['nohome']))
 
 
